@@ -66,6 +66,10 @@ class Checker:
 
         @contextmanager
         def cm():
+            if self._alias is not None:
+                # nested: everything stays under the outermost rule
+                yield self
+                return
             self.rule(rid, text, minimum)
             prev, self._alias = self._alias, rid
             try:
